@@ -27,7 +27,7 @@ def ensure_wt():
 
 def main():
     prop = sys.argv[1]
-    inc = f"/verif/seeded/_incoming/{prop}"
+    inc = os.environ.get("SEED_INCOMING", "/verif/seeded/_incoming") + f"/{prop}"
     ks = sys.argv[2:] or sorted(d for d in os.listdir(inc) if os.path.isdir(f"{inc}/{d}"))
     ensure_wt()
     for k in ks:
@@ -79,7 +79,7 @@ def main():
         write(prop, k, d, rec, dest)
 
 def write(prop, k, d, rec, dest):
-    out = f"/verif/seeded/{prop}-{k}"
+    out = f"/verif/seeded/{prop}-" + os.environ.get("SEED_TAG", "") + f"{k}"
     os.makedirs(out, exist_ok=True)
     for f in os.listdir(d):
         if f.endswith(".log"): continue
